@@ -395,10 +395,10 @@ func c28() {
 	r := vk.Start("C28", "fault_enumeration")
 	hb := startHeartbeat()
 	defer hb.Stop()
-	rounds := r.Pick(8, 24)
+	rounds := r.Pick(8, 16)
 	K := r.Pick(8, 32)
-	wantAcq := r.Pick(60, 200)
-	maxTry := r.Pick(1500, 6000)
+	wantAcq := r.Pick(60, 120)
+	maxTry := r.Pick(1500, 4000)
 	killsPerRound := r.Pick(6, 24)
 	rng := r.Rand("rounds")
 	model := lockModel()
